@@ -5,6 +5,7 @@ impl VRead for VDynReader {
     uninterp spec fn data(&self) -> Seq<u8>;
     uninterp spec fn pos(&self) -> nat;
     uninterp spec fn wf(&self) -> bool;
+    uninterp spec fn nerr(&self) -> nat;
     #[verifier::external_body]
     fn read(&mut self, buf: &mut [u8]) -> (r: std::io::Result<usize>) { unimplemented!() }
 }
